@@ -3,7 +3,7 @@ import Pkgcore.Proofs.C17
 # C17 — planner rollback restores the exact earlier state
 
 Property theorems only (helper lemmas live in `Pkgcore/Proofs/C17.lean`).  `applyCmd`, `revertEntry`,
-`backtrack` mirror `pkgcore.resolver.state` / `pigeonholes` (after the four `fix:` commits); `exec`,
+`backtrack` mirror `pkgcore.resolver.state` / `pigeonholes` (after the six `fix:` commits); `exec`,
 `surviving`, `replay`, `Same` are the specification (`Spec/C17.lean`).
 
 Guard.  The theorems are stated for operations that respect their contract, `applicable`:
